@@ -52,6 +52,9 @@ func newSimWorld(sc *Scenario) *simWorld {
 				_, _ = k.CreateRequestContext(ctx, rc.ServiceName, rc.Providers, rc.Consumer, rc.Input, rc.ServiceFeeCap, rc.Timeout,
 					false, false, 0, 0, st.RUNNING, 1, mod)
 			}
+			if rc, ok := k.GetRequestContext(ctx, id); ok && sc.Rig.ReentrantSelfStart && err != nil {
+				_ = k.StartRequestContext(ctx, id, rc.Consumer)
+			}
 			if rc, ok := k.GetRequestContext(ctx, id); ok && sc.Rig.ReentrantSelfKill && err != nil {
 				_ = k.KillRequestContext(ctx, id, rc.Consumer)
 			}
